@@ -53,6 +53,15 @@ def dup_pair(tree, path, i, at=None):
     return replace(tree, path, M(pairs))
 
 
+def dup_pair_null(tree, path, i, null_first):
+    """the i-th pair twice, one of the two occurrences carrying null (a 'seen' marker derived from the decoded value would miss it)"""
+    m = get(tree, path)
+    pairs = list(m.pairs)
+    k, v = pairs[i]
+    pairs[i:i + 1] = [(k, None), (k, v)] if null_first else [(k, v), (k, None)]
+    return replace(tree, path, M(pairs))
+
+
 def insert_pair(tree, path, at, k, v):
     m = get(tree, path)
     pairs = list(m.pairs)
